@@ -219,6 +219,8 @@ def lazy_fact(src):
                         v = st.value
                         if isinstance(v, (ast.List, ast.Dict, ast.Set)) and not (getattr(v, "elts", None) or getattr(v, "keys", None)):
                             state["ok"] = False
+                        if isinstance(v, ast.Call) and not v.args and not v.keywords and getattr(v.func, "id", getattr(v.func, "attr", "")) in ("OrderedDict", "dict", "list", "set", "defaultdict", "deque"):
+                            state["ok"] = False          # an empty container published first and filled afterwards
                         published.add(ast.unparse(t))
             for part in ("body", "orelse", "finalbody"):
                 if hasattr(st, part):
